@@ -128,7 +128,7 @@ def build_streams(folders_enc, packpos, pack_crc, fcrc_shortcut, numunpack_mode,
     pack = [byte("id:packinfo", 0x06), num("packpos", packpos), num("numpackstreams", nf)]
     pack.append(sec("packsizes", byte("id:size", 0x09), *[num("packsize", _psize(f)) for f in folders_enc]))
     if pack_crc:
-        defined = pack_crc if isinstance(pack_crc, list) else [True] * nf
+        defined = pack_crc if isinstance(pack_crc, list) else ([i % 2 == 0 for i in range(nf)] if pack_crc == "partial" else [True] * nf)
         pack.append(digests_node("packcrcs", [_pcrc(f) for f in folders_enc], defined, fcrc_shortcut))
     pack.append(byte("end", 0))
     cod = [byte("id:unpackinfo", 0x07), byte("id:folder", 0x0B), num("numfolders", nf), byte("external", 0)]
@@ -201,6 +201,9 @@ def build_filesinfo(files, opts):
     if any(a is not None for a in attrs):
         props.append(sized("attributes", 0x15, raw("defined", enc_defined([a is not None for a in attrs], sc)),
                            byte("external", 0), *[N("u32", "attr", a) for a in attrs if a is not None]))
+    if opts.get("comment"):
+        # kComment: present in the property id table, carries nothing an extractor needs
+        props.append(sized("comment", 0x16, raw("text", bytes([0x63]) * int(opts["comment"]))))
     sp = opts.get("startpos")
     if sp and n:
         # kStartPos: obsolete but part of the grammar (same shape as the time properties)
